@@ -21,22 +21,22 @@ Local Open Scope Z_scope.
 (* no observation of any run is a panic: every mode, every script of well-typed messages (every
    wire deadline in u64 x u32 or omitted, every id, floods, cancels, responses), every caller-chosen
    Instant, every stream, every subscriber configuration, every cut *)
-Theorem C16_no_panic_run : forall c e ops, env_ok e -> Forall hop_wf ops ->
+Theorem C16_no_panic_run : forall c e ops, env_ok (aged_env e (quiet_age ops)) -> Forall hop_wf ops ->
   Forall (fun l => has_panic l = false) (fst (hrun c e ops)).
 Proof. exact hostile_no_panic. Qed.
 
 (* the monitor accepts every run: probes are served, representable calls are sent, a stream of
    frames cut inside its last frame yields the whole frames and ends with an error (cut = 4: below) *)
-Theorem C16_monitor : forall c e ops, env_ok e -> Forall hop_wf ops ->
+Theorem C16_monitor : forall c e ops, env_ok (aged_env e (quiet_age ops)) -> Forall hop_wf ops ->
   hcut c <> 4%nat ->
-  (mode c = MServer -> wheel_env e) ->
+  (mode c = MServer -> wheel_env (aged_env e (quiet_age ops))) ->
   c16_ok c e ops (fst (hrun c e ops)) = true.
 Proof. exact c16_monitor_holds. Qed.
 
 (* wheel_env (server mode only): the timer wheel is not AHEAD of the clock by the default
-   deadline or more -- physically always true (the wheel only advances to instants that have
-   passed), but not implied by dq_env, and necessary: otherwise a probe's 10 s timer is born
-   expired and its response is dropped *)
+   deadline or more, and the queue is younger than u64::MAX ms (584 million years: beyond it
+   tokio-util's ms() saturates) -- physically always true, but not implied by dq_env, and
+   necessary: otherwise a probe's 10 s timer is due at once and its response is dropped *)
 Theorem C16_wheel_env_necessary : forall c e, env_ok e -> mode c = MServer -> ~ wheel_env e ->
   c16_ok c e [SProbe 0%N] (fst (hrun c e [SProbe 0%N])) = false.
 Proof. exact wheel_env_necessary. Qed.
@@ -58,6 +58,21 @@ Proof. exact ShippedProofs.strict_monitor_holds. Qed.
 (* the harness's virtual clock lies inside the ranges *)
 Theorem C16_std_env_ok : env_ok std_env /\ wheel_env std_env.
 Proof. exact (conj std_env_ok std_env_wheel). Qed.
+
+(* QUIET CONNECTIONS.  A script may start with Age ops: the connection exists (its timer queue was
+   created) and stays quiet while the clocks move; the ranges must then hold for the AGED
+   environment (the premises above).  For the harness's environment that is every quiet age up to
+   37 183 476 s (dq_lag_max = 37 183 476 735 ms, about 430 days) ... *)
+Theorem C16_std_env_aged_ok : forall secs, (0 <= secs <= 37183476)%Z ->
+  env_ok (aged_env std_env secs) /\ wheel_env (aged_env std_env secs).
+Proof. exact std_env_aged_ok. Qed.
+
+(* ... and one second beyond it the repaired code still panics on a request whose deadline is a
+   year or more away (the residual boundary of the timer wheel, with MAX_TIMEOUT = 365 days) *)
+Theorem C16_aged_lag_refuted :
+  let c := {| mode := MServer; listening := false; json := true; hchunks := []; hcut := 0 |} in
+  fst (hrun c std_env [Age 37183477; SReq 1 (Some (94608000, 0)%N) false]) = [[]; [OPanic]].
+Proof. exact aged_lag_refuted. Qed.
 
 (* ---- the arithmetic, for EVERY decoded Duration and EVERY caller-chosen Instant ---- *)
 
@@ -135,6 +150,8 @@ Print Assumptions C16_wheel_env_necessary.
 Print Assumptions C16_truncation_header_refuted.
 Print Assumptions C16_truncated_frames_error.
 Print Assumptions C16_std_env_ok.
+Print Assumptions C16_std_env_aged_ok.
+Print Assumptions C16_aged_lag_refuted.
 Print Assumptions C16_decode_no_panic.
 Print Assumptions C16_arm_no_panic.
 Print Assumptions C16_field_no_panic.
